@@ -24,15 +24,15 @@ def _sites_of_interest(w, spec):
     """(label, node, field->provenance) for constructor calls, calls of nested functions, and calls of the builder helpers."""
     out = []
     seen = set()
-    ordered = sorted(w.sites, key=lambda s: (s.node.lineno, s.node.col_offset))
+    ordered = sorted(w.sites, key=lambda s: (s.node.lineno, s.node.col_offset, getattr(s, "ctx", ())))
     merged = {}
     for s in ordered:
-        merged.setdefault(id(s.node), []).append(s)
+        merged.setdefault((id(s.node), getattr(s, "ctx", ())), []).append(s)
     for s in ordered:
         n = s.node
-        if id(n) in seen:
+        if (id(n), getattr(s, "ctx", ())) in seen:
             continue
-        seen.add(id(n))
+        seen.add((id(n), getattr(s, "ctx", ())))
         f = n.func
         label = None
         names = None
@@ -64,7 +64,7 @@ def _sites_of_interest(w, spec):
         if label is None:
             continue
         fa = {}
-        for s2 in merged[id(n)]:
+        for s2 in merged[(id(n), getattr(s, "ctx", ()))]:
             for i, a in enumerate(s2.args):
                 k = names[i] if names and i < len(names) else f"arg{i}"
                 fa.setdefault(k, set()).update(a)
@@ -150,7 +150,7 @@ def _positional(call, pnames):
 def _one(w, spec):
     recs = _sites_of_interest(w, spec)
     # nested function definitions: their own constructor sites, free variables shown as such
-    for name, lf in getattr(w, "localfns", {}).items():
+    for name, lf in ({} if W.INLINE_LOCAL else getattr(w, "localfns", {})).items():
         sub = W.FnWiring.__new__(W.FnWiring)
         sub.fn = lf
         sub.is_method = False
@@ -260,11 +260,111 @@ def current(for_reference=False):
     for m in tx.functions:
         recs, rets, apps = _one(W.of("ast_transforms", None, m), spec)
         out["ast_transforms." + m] = {"records": recs, "returns": sorted(rets), "appends": apps}
+    _resolve_params(out)
     if for_reference:
         out["$methods"] = sorted(W.METHODS)
     else:
         _memo["cur"] = out
     return out
+
+
+def _resolve_params(out):
+    """Data handed to a private production / builder through a parameter is followed into the callee: every `param:#i` of a callee whose call
+    sites are recorded is replaced by the values the callers pass (one alternative each), and the argument then disappears from the call
+    records.  What a node field receives is thus described in terms of tokens and production results, wherever the boundary between caller and
+    callee is drawn: passing `tok` and computing `coord(tok)` inside, or passing `coord(tok)`, read the same; so do a callee that parses a
+    sub-construct itself and one that is handed the parsed result.  (Arguments of parameters that no recorded value of the callee mentions -
+    flags, values only tested - stay in the call records.)"""
+    import copy
+    import re
+    pat = re.compile(r"param:#(\d+)")
+    for m, info in out.items():
+        # the call records as written (every argument still in place), for the rules that ask what a particular call site passes
+        info["calls"] = copy.deepcopy([r for r in info["records"] if r[0].startswith(("call:", "fn:"))])
+
+    def key_of(label):
+        nm = label[len("call:"):]
+        return nm if nm in out else ("ast_transforms." + nm if "ast_transforms." + nm in out else None)
+    for _round in range(4):
+        # values passed per (callee, parameter index)
+        passed = {}
+        for m, info in out.items():
+            for lab, fa in info["records"]:
+                if not lab.startswith("call:"):
+                    continue
+                callee = key_of(lab)
+                if callee is None or callee == m:
+                    continue
+                for f_, vals in fa.items():
+                    mm = re.fullmatch(r"p(\d+)(@coord)?", f_)
+                    if mm:
+                        passed.setdefault((callee, int(mm.group(1))), set()).update(vals)
+        if not passed:
+            return
+        changed = False
+        used = set()
+
+        def subst(m, text):
+            idxs = {int(i) for i in pat.findall(text)}
+            idxs = [i for i in sorted(idxs) if (m, i) in passed and not any(("param:#" in v) for v in passed[(m, i)])]
+            if not idxs:
+                return [text]
+            res = [text]
+            for i in idxs:
+                alts = sorted(passed[(m, i)])
+                if len(res) * len(alts) > 32:
+                    return [text]
+                used.add((m, i))
+                nn_alts = [a for a in alts if a != "None"] or alts
+                res = [re.sub(r"param:#%d(?!\d)" % i, lambda _m, a=a: a, re.sub(r"param:#%d!" % i, lambda _m, b=b: b, r)) for r in res for a in alts for b in nn_alts]
+                res = sorted(set(res))
+            # an attribute / coordinate of an absent value does not exist (the access would fail): such alternatives are infeasible
+            res = [r for r in res if "coord(None)" not in r and "None." not in r] or res
+            return res
+        for m, info in out.items():
+            if not any((m, i) in passed for i in range(8)):
+                continue
+            new_recs = []
+            for lab, fa in info["records"]:
+                if ">" in lab:
+                    new_recs.append([lab, fa])      # a nested function's own records: its `param:#i` are its own parameters
+                    continue
+                nf = {}
+                for f_, vals in fa.items():
+                    nv = sorted({x for v in vals for x in subst(m, v)})
+                    if nv != sorted(vals):
+                        changed = True
+                    nf[f_] = nv
+                new_recs.append([lab, nf])
+            info["records"] = new_recs
+            nr = sorted({x for v in info["returns"] for x in subst(m, v)})
+            if nr != sorted(info["returns"]):
+                changed = True
+            info["returns"] = nr
+            na = {}
+            for tgt, lst in info["appends"].items():
+                for t2 in subst(m, tgt):
+                    for provs, op in lst:
+                        na.setdefault(t2, []).append([sorted({x for v in provs for x in subst(m, v)}), op])
+            if na != info["appends"]:
+                changed = True
+            info["appends"] = na
+        # the arguments that were followed into the callee leave the call records
+        for m, info in out.items():
+            keep = []
+            for lab, fa in info["records"]:
+                callee = key_of(lab) if lab.startswith("call:") else None
+                if callee is not None and callee != m:
+                    fa = {f_: v for f_, v in fa.items() if not ((mm := re.fullmatch(r"p(\d+)(@coord)?", f_)) and (callee, int(mm.group(1))) in used)}
+                    if not fa:
+                        changed = True
+                        continue
+                keep.append([lab, fa])
+            if len(keep) != len(info["records"]) or any(a[1] != b[1] for a, b in zip(keep, info["records"])):
+                changed = True
+            info["records"] = keep
+        if not changed:
+            return
 
 
 _memo = {}
